@@ -61,6 +61,7 @@ impl Clone for ByteArena {
 }
 
 /// We try to allocate chunks from this geometrically growing size sequence..
+#[cfg(not(woodpile_verif_arena))]
 const BUMP_REGION_SIZE_SEQUENCE: [usize; 9] = [
     1 << 12,
     1 << 13,
@@ -74,7 +75,33 @@ const BUMP_REGION_SIZE_SEQUENCE: [usize; 9] = [
 ];
 
 /// We round to 4KB
+#[cfg(not(woodpile_verif_arena))]
 const BUMP_REGION_SIZE_FACTOR: usize = 4096;
+
+/// Verification hook: with `--cfg woodpile_verif_arena`, the chunk size
+/// sequence is `base << (i * shift)` with `"base,shift"` taken from the
+/// `WOODPILE_VERIF_ARENA_CHUNK` environment variable at compile time
+/// (e.g. "4,0" for constant 4-byte chunks, "4,1" for 4, 8, 16, ...), and
+/// sizes are rounded to `base`; bounded checkers can then exhaust and
+/// regrow chunks with tiny pushes.
+#[cfg(woodpile_verif_arena)]
+const BUMP_REGION_SIZE_SEQUENCE: [usize; 9] = {
+    let (base, shift) = crate::verif_hooks::parse_pair(
+        option_env!("WOODPILE_VERIF_ARENA_CHUNK"),
+        (1 << 12, 1),
+    );
+    assert!(base > 0 && shift <= 2);
+    let mut ret = [0usize; 9];
+    let mut i = 0;
+    while i < 9 {
+        ret[i] = base << (i * shift);
+        i += 1;
+    }
+    ret
+};
+
+#[cfg(woodpile_verif_arena)]
+const BUMP_REGION_SIZE_FACTOR: usize = BUMP_REGION_SIZE_SEQUENCE[0];
 
 // Whenever we allocate from a [`ByteArena`], the allocation is associated
 // with an `Anchor`.  Each anchor has a sticky optional reference to the
